@@ -66,4 +66,33 @@ func init() {
 		},
 		SimTimeUnit: "CLI invocations and lease epochs (no timers on this path except the lease, which is simulated)",
 	})
+	add(&simkit.Check{
+		Property: "C13",
+		Parts: []simkit.Part{
+			{Name: "clisim-c13-apply", Fn: clisim.C13Apply, ProcessLevel: true, NeedsCLI: true, Runs: map[string]int{"quick": 900, "thorough": 30000}},
+		},
+		Rule:           "apply part: generated directory (1-4 files x 1-4 statements, real DDL mixed in) with at most one statement that fails at execution time at a drawn (file, statement), global --tx-mode stratified over the run index x per-file atlas:txmode directives x optional count argument x optional earlier clean apply; then fix + re-hash + re-run; distinct = distinct trace hash among runs that executed at least one apply",
+		RequiredProbes: []string{"partial-prefix-recorded", "rolled-back-after-progress"},
+		RequiredFaults: []string{"statement-failure-or-directive-conflict"},
+		Real:           []string{"the whole CLI binary (cmdapi tx multiplexer, dry-run wrappers, Executor, ent revision store, SQLite driver)", "SQLite engine and files"},
+		Stub:           []string{"none (independent mattn/go-sqlite3 observer)"},
+		Assumptions: []string{
+			"'no atlas_schema_revisions table' and 'an empty atlas_schema_revisions table' are the same revision history",
+			"label columns executed_at, execution_time, operator_version are not compared",
+		},
+		SimTimeUnit: "CLI invocations",
+	})
+	add(&simkit.Check{
+		Property: "C12",
+		Parts: []simkit.Part{
+			{Name: "execsim-c12", Fn: execsim.C12, Runs: map[string]int{"quick": 40000, "thorough": 2000000}},
+		},
+		Rule:           "one run = victim file of 1-5 statements (optional complete predecessor / pending successor), partially applied to progress k by an injected persistent statement failure, then one edit (change/insert/delete/swap/truncate/append at a drawn index, truncation may go below k), re-hash, apply, apply again; distinct = distinct trace hash",
+		RequiredProbes: []string{"partial-with-applied-statements", "edit-touches-applied-part", "fewer-statements-than-applied", "edit-of-unapplied-tail", "tail-edit-changes-length"},
+		RequiredFaults: []string{"stmt-persistent"},
+		Real:           []string{"migrate.Executor (Pending, Execute: partial-hash comparison, resume)", "migrate.MemDir, HashFile, statement scanner"},
+		Stub:           []string{"database (SimDriver)", "revision store (SimRevs)"},
+		Assumptions:    []string{"history 'untouched' is compared without the label fields ExecutedAt, ExecutionTime, OperatorVersion"},
+		SimTimeUnit:    "executor calls",
+	})
 }
